@@ -3141,3 +3141,18 @@ silent("r4-c07-parser-scratch-state-restored", ["C07"], "pymbolic/parser.py",
        "        finally:\n"
        "            self._depth -= 1\n")
 
+
+# round 8: a key that names only some attributes of a parameter covers only
+# those (the seed C18-r8m2 is the attribute flavour; this is the whole-object one)
+fire("c18-memo-key-names-one-attribute-of-the-space", ["C18"],
+     "pymbolic/geometric_algebra/__init__.py",
+     "def _shared_metric_coeff(shared_bits, space):\n    result = 1\n",
+     "_smc_table = {}\n\n\n"
+     "def _shared_metric_coeff(shared_bits, space):\n"
+     "    k = (shared_bits, space.dimensions)\n"
+     "    if k in _smc_table:\n"
+     "        return _smc_table[k]\n"
+     "    _smc_table[k] = _smc_inner(shared_bits, space)\n"
+     "    return _smc_table[k]\n\n\n"
+     "def _smc_inner(shared_bits, space):\n    result = 1\n",
+     "O/memo/geometric_algebra:_smc_table/key-covers-inputs:_shared_metric_coeff")
